@@ -75,6 +75,21 @@ theorem C11_refuted_name_index : ¬ C11_full := by
   rw [witness_name_index] at this
   omega
 
+/-- a third refutation (finding C11-F3): a SpawnChild held in PreStart while its parent is stopped completes
+anyway ("parent pid does not exist" is not treated as a failure): the child runs outside the tree; once the
+parent and the child are spawned again two instances of the child's path run -/
+def witnessOrphan : List Op :=
+  [.full ⟨.spawn, ["a"]⟩, .sBegin ⟨.child, ["a", "x"]⟩, .kill ["a"], .sEnd ["a", "x"],
+   .full ⟨.spawn, ["a"]⟩, .full ⟨.child, ["a", "x"]⟩]
+
+theorem witness_orphan : liveCount (run St.init witnessOrphan).1 ["a", "x"] = 2 := by decide
+
+theorem C11_refuted_orphan_child : ¬ C11_full := by
+  intro h
+  have := (h witnessOrphan).2.2.1 ["a", "x"]
+  rw [witness_orphan] at this
+  omega
+
 /-- PARTIAL (code as it is): any interleaving of the phases of any number of Spawn /
 SpawnNamedFromFunc / SpawnChild calls on any names, with no Shutdown in flight ⇒ the full statement. -/
 theorem C11_partial (ops : List Op) (hsp : ops.all spawnOnly = true) :
